@@ -633,7 +633,7 @@ func (ex *Exec) inlineCall(st *State, fi *FuncInfo, recv Val, args []Val, call *
 	}
 	basePC := len(st.pc)
 	work := st.clone()
-	outs := ex.execBlock([]*State{work}, fi.Decl.Body.List)
+	outs := ex.execBlock([]*State{work}, fi.Body.List)
 	var rets []*State
 	for _, o := range outs {
 		if o.ctl == ctlPanic {
@@ -731,6 +731,19 @@ func (ex *Exec) evalKnownExtern(st *State, key string, recv Val, recvExpr ast.Ex
 				return &TupleV{[]Val{&RefV{Nil: true}, SV{T: False}}}, true
 			}
 		}
+	case "fmt.Println", "fmt.Print", "fmt.Printf":
+		// writes to standard output are counted in the ghost variable stdoutWrites; the last argument list is kept
+		c := ex.ghostCell("stdoutWrites")
+		cur, ok := st.store[c].(SV)
+		if !ok {
+			cur = SV{T: Zero}
+		}
+		st.store[c] = SV{T: Add(cur.T, One)}
+		if rest, ok := args[len(args)-1].(*SliceV); ok && rest.IsV && len(rest.Vec) == 1 {
+			st.store[ex.ghostCell("stdoutLast")] = rest.Vec[0]
+		}
+		st.recordCall(key[strings.LastIndex(key, ".")+1:], nil)
+		return &TupleV{[]Val{SV{T: Fresh("n", SInt)}, SV{T: Fresh("err", SInt)}}}, true
 	case "fmt.Errorf", "errors.New":
 		e := Fresh("err", SInt)
 		st.assume(Not(Eq(e, Zero)))
@@ -784,4 +797,16 @@ func (ex *Exec) findByTag(st *State, tag int) *SliceV {
 		rec(v)
 	}
 	return found
+}
+
+func (ex *Exec) ghostCell(name string) *Cell {
+	if ex.ghostCells == nil {
+		ex.ghostCells = map[string]*Cell{}
+	}
+	if c, ok := ex.ghostCells[name]; ok {
+		return c
+	}
+	c := newCell(name)
+	ex.ghostCells[name] = c
+	return c
 }
